@@ -11,57 +11,137 @@ COMMON_NOTE = ("Trusted: Lean 4.33 kernel; axioms propext/Classical.choice/Quot.
                "(tie A) and the differential harness + compiled model driver (tie B); GoStd re-implementation of the Go "
                "stdlib functions used (validated by stream std). ")
 
-PIPE_TEXT = ("Executable Lean model of the whole per-message pipeline (handleRawMessage, handleDialog, HandleMessage, transport table, pins, rotation) tied to proxy.go/message.go/transport.go by differential execution through the REAL loop goroutine of assembled Proxy objects: outputs (destination, bytes), transport-table changes and state snapshots must be identical; predictions derived from the abstract case are checked on the implementation's output. Theorems about the model are in Props/.")
-PIPE_NOTE = "Partial: sockets, goroutine scheduling and the OS are outside the model; DNS misses count as failures; time does not pass inside a case."
-PIPE_TECH = "Lean model + differential pipeline correspondence with abstract-case oracles"
+PIPE_TIE = ("Tie: the hand-written executable Lean model of the whole per-message pipeline (handleRawMessage, handleDialog, HandleMessage, "
+            "transport table, pins, rotation; Proxy/Model.lean over Sip/Message.lean) is run by the compiled driver on the same generated "
+            "op lines as the REAL loop goroutine of assembled Proxy objects (harness injected into package main by go test -overlay): "
+            "destinations, relayed bytes, transport-table changes and state snapshots must be identical, and the property's oracle - "
+            "expectations derived by the generator from the abstract case, independently of code and model - is evaluated on the "
+            "implementation's output. ")
+PIPE_NOTE = ("Partial on the runtime side: sockets, goroutine scheduling and the OS are outside the model (observed by the wire stage "
+             "where one exists); DNS misses count as failures; no time passes inside one case. ")
+PIPE_TECH = "Lean 4 proof over a hand-written executable model + differential correspondence (real Proxy loop vs compiled model) with abstract-case oracles"
 
 CLAIMS = {
-    "C05": ("proof", "Lean theorems over the RoundRobinBackend model for every state and history: target is a current member, empty set drops, any k consecutive dispatches are a permutation of the k backends from any cursor, floor/ceil counts, removed/added membership, list/map agreement for every well-formed history, and the racing theorem over the three locked steps. Tied to backend.go by exhaustive (all sequences to length 5/7) and random differential histories on the real RoundRobinBackend, with the rotation oracle evaluated on the implementation's trace.",
-            "7 C05", "Partial on schedules: interleavings are those of the locked steps; sync.Mutex, the Go scheduler and memory model are trusted. The theorem that the trace oracle accepts every model history is not yet proved (the oracle runs on the implementation only).",
-            "Lean proof (invariants, induction over histories, List.rotate_perm) + differential correspondence"),
-    "C14": ("proof", "Lean theorems over the codec model (split/join inverse laws; per-type round-trip theorems being extended) tied to the Go parsers/encoders by a grammar-directed differential stream whose expected decodes and accessor values are computed from the abstract value, independently of code and model; stdlib micro-correspondence underneath.",
-            "7 C14", "IPv6 references and ';'/'?' in user parts are the property's own known findings (known_findings.json). Unicode case folding of header names outside ASCII is not modelled.",
-            "Lean proof (split/join inverse laws) + grammar-directed differential correspondence"),
-    "C15": ("proof", "Lean theorems over the DialogBasedBackend model with explicit time, for arbitrary histories of add/get/remove at non-decreasing instants: a pin is honoured strictly before t0+max(timeout,Expires) whatever else happens, never from that instant on, gone after remove, and (sweep invariant) after any add no entry that expired more than one timeout earlier survives, whatever Expires values were used. Tied to backend.go by differential histories on the real object under a virtual clock (stored instants shifted), with the lifetime/purge oracle evaluated on the implementation.",
-            "7 C15", "Partial: wall-clock behaviour (timer granularity, scheduling) is not modelled; the float comparison in AddBackend is exact only for whole-second timeouts; BYE/NOTIFY wiring to remove() belongs to the pipeline model (C04).",
-            "Lean proof (history invariants) + virtual-clock differential correspondence"),
-    "C18": ("proof", "Lean theorems over the PreConfigRoute model: characterisation of pattern matching ('*' any sequence, every other byte itself), the precedence literal > first matching pattern in configuration order > default > none proved against the very oracle evaluated on the implementation, determinism, next-hop port defaults. Tied to preconfig_route.go by exhaustive tables (<=3/4 entries over the pattern universe) x all hosts with each lookup repeated 50 times.",
-            "7 C18", "Assumption (not a theorem): on patterns over [A-Za-z0-9._*-] Go's regexp of the escaped pattern decides the same relation as the model's glob; validated exhaustively by the stream.",
-            "Lean proof + exhaustive differential correspondence"),
-    "C19": ("proof", "Lean theorems over the resolver/rotation model: for every history of duplicate-free IPv4 resolutions and failures the rotation list, its address map and the proxy's address index hold exactly the current resolved set; up to three consecutive failures change nothing, the fourth empties a non-empty set and resets the count. Tied to resolver.go/backend.go by exhaustive (length 3/5 over subsets of 3) and random outcome histories fed to the real addressResolved with real UDP/TCP backends.",
-            "7 C19", "Partial: notifications run in fresh goroutines; the model is the synchronous composition the property's quiescence grants. One host name per rotation in the theorem (two names are exercised by the stream).",
-            "Lean proof (membership invariants) + exhaustive differential correspondence"),
-    "C20": ("proof", "Lean theorems over the send loops for every fault oracle: success implies exactly one completed write, error implies none (client transport, TCP backend, fail-over), fallback to a fresh connection within the same send, refusal yields an error (total functions: no hang), the working connection is reused first. Tied to transport.go/backend.go by the exhaustive fault-pattern stream (scripted connection doubles x real loopback listener up/down x 1-3 messages).",
-            "7 C20", "Partial: 'written' means Write returned nil; accept-then-reset peers are not scripted (outcome depends on RST timing).",
-            "Lean proof (loop induction over fault oracles) + exhaustive fault enumeration"),
-    "C01": ("proof", PIPE_TEXT + " C01: the relay oracle (start line, every non-routing header with name/value/multiplicity/order, body, exactly one Content-Length equal to the body size) is evaluated with an independent reader on every relayed message of every path.",
-            "7 C01", PIPE_NOTE, PIPE_TECH),
-    "C02": ("proof", PIPE_TEXT + " C02: responses with 1-6 Via entries in every layout; expected destination (received/rport/sent-by/default port, host table, supported transports) and remaining Via stack predicted from the abstract case.",
+    "C01": ("proof", "Theorems (Props/C01.lean), for EVERY configuration, state and received message, no hypothesis: every output of one step of the proxy "
+            "prints a message whose start line, body and not-owned headers (name, printed value, multiplicity, order) are those of the message received "
+            "(C01_step, C01_handleMessage, per-stage C01_handleRawMessage/_handleDialog/_getNextRequestHop/_responseHop/_insertSelf); the bytes on the wire carry "
+            "exactly one Content-Length equal to the body size and nothing else but the owned header lines differs (C01_one_content_length, C01_content_length_value, "
+            "C01_wire). From/To/CSeq are decoded in place and written back literally (Lemmas.roundTrips_all, after the repairs D6/D25). " + PIPE_TIE +
+            "Streams: pipe (requests, responses, dialogs, TCP, twins; legal non-canonical CSeq/From/To/Request-URI spellings), frame (queued serialisation).",
+            "7 C01 and section 14", PIPE_NOTE + "The parsed-to-wire theorem starts from the parsed message; bytes-to-parsed is Lemmas.Message.parse_render (well-formed input). "
+            "Known findings: Request-URI with empty password / leading-zero port is re-encoded canonically.", PIPE_TECH),
+    "C02": ("proof", "Theorems (Props/C02.lean): a response is relayed iff after popping the top Via another entry remains (C02_relay, C02_no_via_no_send, C02_no_hop_no_send); "
+            "the hop is received/rport/sent-by/default port by the stated precedence (C02_hop, C02_sentby, C02_received_rport, C02_received_badrport, C02_received_norport, C02_port); "
+            "the remaining Via stack is intact and in order (C02_hop_stack, C02_remaining); lifted to step (C02_step, C02_step_raw). " + PIPE_TIE +
+            "Streams: pipe focused on responses with 1-6 Via entries in every layout, every status class, empty reason phrase.",
             "7 C02", PIPE_NOTE, PIPE_TECH),
-    "C03": ("proof", PIPE_TEXT + " C03: the decision table {Route} x {static route} x {Request-URI} x {keep} x {transport}; exactly one destination by fixed precedence or none.",
-            "7 C03", PIPE_NOTE + " The service-name regexp verdict is an oracle computed by the generator.", PIPE_TECH),
-    "C04": ("proof", PIPE_TEXT + " C04: histories of 1-50 concurrent dialogs over 2-6 backends, pins by INVITE answers from a backend address and by SUBSCRIBE answers towards a backend, in-dialog requests of every method in both directions, unrelated traffic, early termination.",
-            "7 C04", PIPE_NOTE + " Pin expiry is C15's subject (no time passes inside one case).", PIPE_TECH),
-    "C06": ("proof", PIPE_TEXT + " C06: own Via (listener transport/address/port, fresh z9hG4bK branch) on top, Record-Route by policy, learned / not learned next hops, one or several listeners; branch freshness is counted over the run.",
-            "7 C06", PIPE_NOTE + " Freshness of branches rests on uuid.NewRandom (oracle).", PIPE_TECH),
-    "C07": ("proof", PIPE_TEXT + " C07: stamping of received/rport on the sender's Via for both values of received-support; the YAML wiring of no-received into every listener constructor is a kernel-checked obligation on regenerated call-site facts (Expected.Wiring) and is exercised end to end by the wire stage (real startProxy, UDP and TCP, response returns to the true source).",
-            "7 C07", PIPE_NOTE, "Lean obligation on regenerated wiring facts + differential pipeline correspondence + wire stage"),
-    "C12": ("proof", PIPE_TEXT + " C12: 2-8 simultaneous connection doubles from 127.0.0.1 with equal/different sent-by, interleaved transactions, provisional and first final responses must be written on the connection the request used; the transport table is compared with the model after every case.",
-            "7 C12", PIPE_NOTE + " Hypotheses: methods without '-', sent-by IP literals or received-support on (D17), entries younger than one hour.", PIPE_TECH),
-    "C13": ("proof", PIPE_TEXT + " C13: Route sets of 0-6 entries in any layout; own entry by address/alias/with and without port, near misses, keep-next-hop-route on/off; the relayed Route stack is predicted from the abstract case.",
+    "C03": ("proof", "Theorems (Props/C03.lean): at most one output per message (C03_at_most_one); fixed precedence Route > static route > service backend > drop "
+            "(C03_route_first, C03_static_second, C03_precedence, C03_precedence_hop/_backend/_drop); a backend target is a member and exactly one (C03_backend_is_member, "
+            "C03_backend_exactly_one, C03_backend_none, C03_hop_exactly_one). " + PIPE_TIE + "Stream: the decision table {Route} x {static route} x {Request-URI kind} x {keep} x {transport}.",
+            "7 C03", PIPE_NOTE + "The service-name regexp verdict enters the model as an oracle bit computed by the generator (Go regexp is not modelled).", PIPE_TECH),
+    "C04": ("proof", "Theorems (Props/C04.lean): pin table laws (C04_get_add_same/_other, C04_get_del_same/_other); a response with both tags from a backend establishes the pin "
+            "(C04_pin_established); an in-dialog request goes to the pinned backend whatever the rotation cursor (C04_sticky_step, C04_sticky_any_rotation); the pin survives any "
+            "other traffic and other dialogs (C04_pin_survives_other_traffic, C04_pin_survives_other_dialog, runBackend_keeps, C04_sticky); unpinned requests are balanced "
+            "(C04_unpinned_balanced). " + PIPE_TIE + "Streams: dialog histories (1-50 dialogs, 2-6 backends, both directions, every method), pins under a virtual clock.",
+            "7 C04", PIPE_NOTE + "Pin expiry is C15's subject.", PIPE_TECH),
+    "C05": ("proof", "Theorems (Props/C05.lean) over the RoundRobinBackend model for every state and history: the target is a current member, an empty set drops (C05_member, "
+            "C05_empty_drops, C05_nonempty_sends); any k consecutive dispatches over k backends are a permutation from any cursor (C05_window_perm, via List.rotate_perm) and counts "
+            "differ by at most one (C05_counts); removed/added membership (C05_removed_gone, C05_added_joins); list/map agreement for every well-formed history (wf_run, "
+            "C05_run_member); the racing theorem over the three separately locked steps (C05_racing). Tie: exhaustive (all sequences to length 5/7) and random differential "
+            "histories on the real RoundRobinBackend, plus a racing stage (rr race) under the race detector.",
+            "7 C05", "Partial on schedules: interleavings are those of the locked steps; sync.Mutex, the Go scheduler and memory model are trusted.",
+            "Lean 4 proof (invariants, induction over histories) + exhaustive/random differential correspondence"),
+    "C06": ("proof", "Theorems (Props/C06.lean): the own Via goes on top and the rest of the stack is untouched (C06_insertSelf_via), Record-Route by policy (C06_insertSelf_rr), "
+            "Route untouched (C06_insertSelf_route); shape of the own Via / Record-Route (C06_ownVia_fields, C06_ownVia_shape_*, C06_ownRecordRoute_shape); which listener inserts itself "
+            "on each path (C06_sendToBackend, C06_relay_learned, C06_relay_unlearned, C06_step_backend, C06_step_relay, C06_step_cover). " + PIPE_TIE +
+            "Streams: pipe requests with learned/not-learned next hops, one or several listeners; branch freshness counted over the run.",
+            "7 C06", PIPE_NOTE + "Freshness of branches rests on uuid.NewRandom (an oracle parameter of the model).", PIPE_TECH),
+    "C07": ("proof", "Theorems (Props/C07.lean): stamping sets received to the source, rport only when asked for, keeps every other parameter and entry in order "
+            "(C07_received, C07_rport_present, C07_rport_absent, C07_other_params_order, C07_stack, C07_frame), lifted to handleRawMessage and step for both values of received-support "
+            "(C07_handleRawMessage, C07_step_enabled, C07_step_disabled). Regenerated-fact obligations: the YAML no-received flag reaches every listener constructor "
+            "(Expected.Wiring) and every constructor stores it (Expected.Ctors). " + PIPE_TIE + "Plus a wire stage: the real startProxy from YAML over UDP and TCP, including "
+            "listeners created for connections the proxy dialed itself.",
+            "7 C07", PIPE_NOTE, "Lean 4 proof + kernel-checked obligations on regenerated wiring facts + differential correspondence + wire stage"),
+    "C08": ("proof", "Theorems (Props/C08.lean): the modelled parser is total (Lean's termination checker: no input-dependent non-termination) and what it keeps is bounded by what it "
+            "received (C08_body_bounded, C08_headers_bounded, C08_message_bounded, C08_stream_bounded); each extracted message consumes input (C08_progress); an undecodable stream "
+            "closes the connection and the loop keeps serving (C08_undecodable_closes, C08_keeps_serving). Regenerated-fact obligation: the inventory of every index/slice/type "
+            "assertion/map write with its guards equals the reviewed snapshot (Expected.Inventory). Tie: accept/reject of mutated byte strings vs the model, robustness oracle "
+            "(no panic, bounded allocation, no stall) through the real pipeline over UDP and TCP paths, liveness probes; a dying process is attributed to the op that killed it.",
+            "7 C08", "Partial: Go runtime, GC, channel back-pressure, DNS latency and kernel buffers are not modelled; nil dereferences are not inventoried.",
+            "Lean 4 proof over a total model + kernel-checked inventory obligation + differential correspondence with robustness oracle"),
+    "C09": ("proof", "Theorems (Props/C09.lean) over a lock/thread model (Side/Lockset.lean): mutual exclusion of the lock semantics (mutual_exclusion), every reachable state of "
+            "a disciplined program is race free (C09_disciplined_no_race), a decidable discipline check on an access table is sound (disciplinedB_sound, C09_table_no_race), "
+            "no lock cycle means no deadlock (C09_no_lock_cycle_no_deadlock, C09_progress), and the converse witnesses (C09_undisciplined_races, C09_opposite_order_deadlocks). "
+            "Regenerated-fact obligation: the access table extracted from /repo (every field access with the locks held, constructor flag, goroutine role) satisfies the discipline "
+            "(Expected.Locks.repo_disciplined, decide +kernel), plus the sharing facts (Expected.Wiring). Tie: stress of several real Proxy loops of one service with membership "
+            "changes, pool, transport table and resolver traffic under the Go race detector; every race report is a violation keyed by its two code locations.",
+            "7 C09", "Partial: the Go memory model and scheduler are trusted (DRF-SC); the extractor's role assignment (which goroutine runs which function) is hand-written in "
+            "Expected/Locks.lean; AddBackend/RemoveBackend send to the loop's event channel (capacity 1000) while holding the rotation lock - assumed never full.",
+            "Lean 4 proof (lockset discipline) + kernel-checked obligation on the regenerated access table + race-detector stress"),
+    "C10": ("proof", "Theorems (Props/C10.lean): what is decoded from a datagram is a function of its own bytes (C10_local, C10_within_datagram), stale buffer content is invisible "
+            "(C10_stale_invisible), over-declared and truncated datagrams are rejected (C10_overdeclared_udp, C10_truncated_udp, ...), pool buffers are exclusive "
+            "(C10_pool_invariant, C10_pool_exclusive, C10_pool_held_distinct). Regenerated-fact obligations on the reader (Expected.Reader: parse over b[:n], loop shape). "
+            "Tie: every datagram goes through the REAL startParseMessage in a clean and in a dirty 64 KiB pooled buffer with deferred serialisation.",
+            "7 C10", "Partial: kernel datagram boundaries and the scheduler are not modelled.", "Lean 4 proof + differential correspondence (clean/dirty buffers, queued serialisation)"),
+    "C11": ("proof", "Theorems (Props/C11.lean): the messages extracted from a byte stream are a function of the stream, not of its segmentation (C11_segmentation_independent, "
+            "C11_any_split_exact, C11_exact_messages, C11_messages_then); a line read in fragments is their concatenation, and the uncopied variant corrupts (C11_fragments_joined, "
+            "C11_fragments_uncopied_corrupt). Tie: generated message sequences under scripted segmentations (exhaustive single/double cuts, random cuts to 1-byte segments, 20 KiB "
+            "lines, SIP-looking bodies, keep-alives) through the real ParseMessage on one bufio.Reader, with queued serialisation.",
+            "7 C11", "Partial: bufio.Reader is represented by its contract (Reader/Frame.lean).", "Lean 4 proof + exhaustive/random segmentation correspondence"),
+    "C12": ("proof", "Theorems (Props/C12.lean): the transport key determines (host, port, transaction) and distinct transactions of received messages never share a key, "
+            "with no hypothesis on the method (C12_key_injective, C12_tid_method_no_blank, C12_distinct_transactions_distinct_keys); registration then lookup under any interleaving "
+            "of other keys answers with the request's connection (C12_invariant, C12_registered_lookup, C12_two_connections_same_address); the registration key is the lookup key "
+            "for every hop host (C12_registration_key_is_lookup_key) so the response is written on the request's connection and nowhere else (C12_request_registers, "
+            "C12_response_on_request_connection, C12_same_hop_same_connection); a final response removes exactly its key (C12_remove_exact, C12_sendMessage_table). " + PIPE_TIE +
+            "Stream: 2-8 connection doubles, equal/different sent-by (IP literals and host names), received on/off, interleaved transactions, '-' in extension methods.",
+            "7 C12", PIPE_NOTE + "Connections are doubles in the in-package stage; real sockets are exercised by the wire stage of C07.", PIPE_TECH),
+    "C13": ("proof", "Theorems (Props/C13.lean): the own top Route entry is consumed exactly when it designates the receiving listener (C13_own_route, C13_designates, C13_port); "
+            "the next hop is the first remaining entry (C13_hop, C13_hop_abs, C13_hop_none); keep/strip of the next-hop entry by configuration (C13_keep, C13_strip); "
+            "the other stacks are untouched (C13_other_stacks); lifted to step (C13_step). " + PIPE_TIE + "Stream: Route sets of 0-6 entries in any layout, own entry by address/alias/with "
+            "and without port, near misses.",
             "7 C13", PIPE_NOTE, PIPE_TECH),
-    "C17": ("proof", PIPE_TEXT + " C17: metamorphic twins (same structure stream, different spelling/layout stream) are compared pairwise on destination, Via/Route/Record-Route stacks, remaining headers up to name class, and body; plus the obligation that no header name is compared with == anywhere (Expected.Wiring).",
-            "7 C17", PIPE_NOTE, "metamorphic differential correspondence + Lean obligation on regenerated facts"),
-    "C16": ("proof", "Dialog identity: exhaustive assignments over small alphabets (incl. equal URIs, equal tags, '-'-containing values) x both orientations x request/response x decorations, plus random long identifiers, through the real GetDialog; the oracle demands a bijection between abstract dialog keys and implementation identifiers over the whole run; model and implementation identifiers are compared byte for byte. Theorems on the identifier function are being added to Props/C16.",
-            "7 C16", "Components free of blanks (true of Call-IDs, tags and URIs).", "differential correspondence with bijection oracle + Lean model"),
-    "C10": ("proof", "UDP isolation: every datagram is pushed through the REAL parse loop (startParseMessage) in a clean and in a dirty 64 KiB buffer; cut, over- and under-declared datagrams; identical outcome required and over-declared/truncated ones must be rejected; pool exclusivity by exhaustive and random Alloc/Free histories against the pool model. Theorems in Props/C10.",
-            "7 C10", "Partial: kernel datagram boundaries and the scheduler are not modelled.", "Lean model + differential correspondence (clean/dirty buffers)"),
-    "C11": ("proof", "TCP framing: generated message sequences under scripted segmentations (exhaustive single and double cuts of short streams, random multi-cuts down to 1-byte segments, header lines up to 20 KiB, SIP-looking bodies, keep-alives) through ParseMessage on one bufio.Reader; the model extracts messages from the joined stream, so any dependence on segmentation is a disagreement. Theorems in Props/C11.",
-            "7 C11", "Partial: bufio.Reader is represented by its contract.", "Lean model + exhaustive/random segmentation correspondence"),
-    "C08": ("proof", "Robustness: accept/reject of arbitrary mutated byte strings compared with the model's total parser (Lean's termination checker = no input-dependent non-termination in the modelled code); robustness oracle (no panic, allocation bounded by bytes received) on the parser and on the whole pipeline for hostile field values over UDP and TCP paths; liveness probes after hostile input; a dying harness process is attributed to the op that killed it. Thorough tier adds Go's coverage-guided fuzzer on the same entry point.",
-            "7 C08", "Partial: Go runtime, GC, channel back-pressure, DNS latency and kernel buffers are not modelled; nil dereferences are not inventoried.", "total Lean model + differential correspondence + robustness oracle"),
-    "C09": ("proof", "Concurrency: several real Proxy loops of one service (shared self-learned route table) are fed concurrently while backends are added/removed and the pool, transport table and a resolver are used from other goroutines, under the Go race detector; every request must reach exactly one backend; every data-race report is a violation keyed by its two code locations. The sharing facts (one SelfLearnRoute per service, one Proxy per listener) are kernel-checked obligations on regenerated wiring facts.",
-            "7 C09", "Partial: the Go memory model and scheduler are not modelled (DRF-SC trusted); AddBackend/RemoveBackend send to the loop's event channel (capacity 1000) while holding the rotation lock - assumed never full.", "race-detector stress + Lean obligation on regenerated sharing facts"),
+    "C14": ("proof", "Theorems (Props/C14.lean, 52): per-type round-trip laws parse(encode x) = x and re-encode stability on explicit decidable domains, and accessor theorems "
+            "(host, port, transport, tag, branch, received, rport) for key/value parameters, URI parameters and headers, SIP URIs, absolute URIs, addr-spec, name-addr, Via entries "
+            "and lists, Route/Record-Route entries and lists; From/To/CSeq are lossless for EVERY text (C14_from_to_lossless, C14_cseq_lossless). Tie: grammar-directed "
+            "differential stream whose expected decodes and accessor values are computed from the abstract value independently of code and model; stdlib micro-correspondence "
+            "underneath (stream std).",
+            "7 C14", "Known findings (known_findings.json): IPv6 references, ';'/'?' in user parts (named by the property), empty password, port with leading zeros.",
+            "Lean 4 proof (round-trip laws on decidable domains) + grammar-directed differential correspondence"),
+    "C15": ("proof", "Theorems (Props/C15.lean) over the DialogBasedBackend model with explicit time, for arbitrary histories of add/get/remove at non-decreasing instants: a pin is "
+            "honoured strictly before t0+max(timeout,Expires) whatever else happens (C15_honoured, C15_lifetime), never from that instant on (C15_not_after), gone after remove "
+            "(C15_terminated), and after any add no entry that expired more than one timeout earlier survives (sweepInv_run, C15_purged). Tie: differential histories on the real "
+            "object under a virtual clock (stored instants shifted).",
+            "7 C15", "Partial: wall-clock behaviour (timer granularity, scheduling) is not modelled.", "Lean 4 proof (history invariants) + virtual-clock differential correspondence"),
+    "C16": ("proof", "Theorems (Props/C16.lean): the identifier is direction independent (C16_symmetric, C16_direction_independent), unaffected by display names, URI parameters, "
+            "other header parameters and header spelling (C16_decorations, C16_display_name, C16_other_params, C16_header_spelling), absent without either tag (C16_no_from_tag, "
+            "C16_no_to_tag), and injective on the discriminating components (C16_injective, C16_same_dialog_iff, C16_discriminating); witnesses for the excluded points "
+            "(C16_blank_inside_collides, C16_colon_in_host_collides). Tie: exhaustive assignments over small alphabets x orientations x request/response x decorations through the "
+            "real GetDialog with a bijection oracle over the whole run.",
+            "7 C16", "Components free of blanks (true of Call-IDs, tags and URIs).", "Lean 4 proof + exhaustive differential correspondence with bijection oracle"),
+    "C17": ("proof", "Theorems (Props/C17.lean, Lemmas/Spell, PipeRel, Layout, LayoutPipe): re-spelling header names (letter case, compact forms) of a message gives the same state, the "
+            "same destinations and re-spelled payloads through the WHOLE step (C17_respell_step, C17_respell_run, C17_bytes, C17_letter_case, C17_compact_form, C17_real_table); "
+            "splitting a Via/Route/Record-Route list over several lines or joining it gives the same stacks, hops and content (C17_stack_split, C17_relayout_step, C17_relayout_run, "
+            "C17_relayout_content); witnesses for what is needed (C17_sanity_needed, C17_split_fail). Obligation on regenerated facts: no header name is compared with == "
+            "(Expected.Wiring). " + PIPE_TIE + "Stream: metamorphic twins (same structure stream, different spelling/layout stream) compared pairwise.",
+            "7 C17", PIPE_NOTE, "Lean 4 proof (relation lifted through the pipeline) + metamorphic differential correspondence"),
+    "C18": ("proof", "Theorems (Props/C18.lean): characterisation of pattern matching (glob_literal, glob_star, glob_cons), the precedence literal > first matching pattern in "
+            "configuration order > default > none (C18_literal_wins, C18_wildcard_next, C18_default_last, C18_precedence), determinism (C18_deterministic), next-hop port defaults. "
+            "Obligation on regenerated facts: FindRoute ranges over no map (Expected.Routes). Tie: exhaustive tables over the pattern universe x all hosts, each lookup repeated 50 times.",
+            "7 C18", "Assumption (validated exhaustively by the stream, not a theorem): on patterns over [A-Za-z0-9._*-] Go's regexp of the escaped pattern decides the model's glob.",
+            "Lean 4 proof + exhaustive differential correspondence"),
+    "C19": ("proof", "Theorems (Props/C19.lean): for every history of duplicate-free resolutions and failures the rotation list, its map and the proxy's address index hold exactly the "
+            "current resolved set (C19_tracks, C19_history); up to three consecutive failures change nothing, the fourth empties a non-empty set (C19_tolerance, C19_fourth_empties, "
+            "failLimit_is_three). Tie: exhaustive (length 3/5 over subsets of 3) and random outcome histories fed to the real addressResolved, through a hand-assembled rotation and "
+            "through the real CreateRoundRobinBackend with the global resolver.",
+            "7 C19", "Partial: notifications run in fresh goroutines; the model is the synchronous composition the property's quiescence grants (the harness waits until no goroutine "
+            "has notifyAddressChanged on its stack). Two names with overlapping images are outside the theorem.",
+            "Lean 4 proof (membership invariants) + exhaustive differential correspondence"),
+    "C20": ("proof", "Theorems (Props/C20.lean) over the send loops for every fault oracle: success implies exactly one completed write, error implies none (C20_client, C20_backend, "
+            "C20_failover), fallback to a fresh connection within the same send (C20_fallback, C20_fallback_backend, C20_failover_to_secondary), refusal yields an error - total "
+            "functions, no hang (C20_refusal), the working connection is reused (C20_sticks), retry bound (retries_is_two). Tie: exhaustive fault patterns (scripted connection "
+            "doubles x real loopback listener up/down/accept-then-reset x 1-3 messages), observed synchronously.",
+            "7 C20", "Partial: 'written' means Write returned nil; ops after an accept-then-reset are compared by the oracle only (outcome depends on the peer's RST).",
+            "Lean 4 proof (loop induction over fault oracles) + exhaustive fault enumeration"),
 }
 
 
